@@ -109,7 +109,13 @@ def observe(case):
         try:
             qa, qb = U.ureg.Quantity(a, ua), U.ureg.Quantity(bb, ub)
             if qa.dimensionality != qb.dimensionality:
-                orc["dim_ok"] = False
+                # pint cannot convert (it reads 'mol%' as mole * percent). Units the source's quantity table puts in one
+                # family and that have the same scale and zero point denote the same number: b needs no conversion
+                ta, tb = st["truth"].get(ua), st["truth"].get(ub)
+                if ta and tb and ta == tb and any(ua in us and ub in us for _, us in st["qmap"]):
+                    pass
+                else:
+                    orc["dim_ok"] = False
             else:
                 orc.update(b_in_a=qb.to(qa.units).magnitude)
         except Exception:
